@@ -9,6 +9,7 @@ def extract(repo):
     try:
         for m in [m for m in sys.modules if m == 'pbhhg_py' or m.startswith('pbhhg_py.')]:
             del sys.modules[m]
+        import pbhhg_py.main                      # the interpreter's own entry point first: its import order is the one that must work
         from pbhhg_py import parse
         def fn(c):
             pieces = parse.normalize(chr(c))
